@@ -9,6 +9,7 @@ hand-written test uses: a label repeated on one tensor, a rename onto a label th
 exists, an outer label of one network equal to an inner label of the other.  After every step
 an oracle re-scans the tensors and compares with the library's lookup structures.
 """
+import copy as _copy
 import gc
 import itertools
 import pickle
@@ -26,12 +27,19 @@ PROP = "C02"
 META = {
     "bounds": {
         "quick": {"labels": "<= 6 symbolic index labels + <= 3 symbolic tags per scenario", "tensors": "<= 3 (rank <= 2, all dims 2)",
-                  "networks": "<= 3 (copies, virtual views, combinations)", "history": "<= 4 operations", "scenarios": "hand-picked + all ordered pairs of the core vocabulary"},
-        "thorough": {"history": "all ordered triples of the core vocabulary on the two-tensor start state"},
+                  "networks": "<= 4 (copies, virtual views, combinations, norm networks with their ket / bra layers)", "history": "<= 4 operations", "scenarios": "hand-picked + all ordered pairs of the core vocabulary (1/4 of them) + ordered pairs (second vocabulary: deep copy, remove_all_tensors, delete, make_norm(False | '*'), tensor deep copy) x core vocabulary in both orders (1/7 of them)",
+                  "duplicates": "every non-virtual way of duplicating a network (copy(deep=True), copy.deepcopy, copy.copy, TensorNetwork(tn)) or one tensor (copy(), copy(deep=True), copy.copy, copy.deepcopy, pickle), followed by <= 2 mutations on either side; both sides re-scanned after every step",
+                  "emptying": "remove_all_tensors / delete(tags, which=all|any) followed by <= 2 add_tensor or an in-place combination (&=, |=); in-place &= / |= on the two-network start",
+                  "norm networks": "make_norm for mangle_append in {'*', '_b', None, False, '', True} x layer_tags in {default, None}, return_all, output_inds = outer labels; conj(mangle_inner) & tn; tn | tn.H; on 2 tensors, <= 4 labels",
+                  "oset": "every public operation of quimb.utils.oset (+ oset_union, oset_intersection, tags_to_oset) on 3 sets of <= 3 elements drawn from 5 symbolic elements: content against an ordered list model, independence of results and operands"},
+        "thorough": {"history": "all ordered pairs + 1/11 of the ordered triples of the core vocabulary, all pairs second vocabulary x core vocabulary in both orders, the in-place combinations on the 6-label two-network start"},
     },
     "outside": ["labels manipulated as strings by the library (site-tag formatting / regular expressions): plain concrete tags are used there",
                 "symbolic labels never alias concrete strings (different hash)", "histories longer than 4", "structured 1D/2D/3D subclasses",
-                "tensor data (all ones): C02 is about bookkeeping"],
+                "tensor data (all ones): C02 is about bookkeeping",
+                "the library's own in-place re-use of an emptied network inside tensor_network_1d_compress(inplace=True) (structured 1D): the emptying primitive itself is covered",
+                "a label of the ket layer that is literally the mangled string of another (e.g. 'x' and 'x*' with mangle_append='*'): documented deterministic mangling",
+                ],
     "assumptions": ["CPython dict / set semantics: keys with equal hash are compared with ==",
                     "for a label repeated on ONE tensor the statement does not define inner/outer: the answer of the library's own fresh constructor on the same tensors is demanded"],
 }
@@ -241,7 +249,8 @@ def s_partition(src, g, a, b, inplace=False):
     return (f"{a},{b}={src}.partition(G{g},inplace={inplace})", f)
 
 
-def s_combine(a, b, dst, op):
+def s_combine(a, b, dst, op, inplace=False):
+    """C = A | B, C = A & B;  inplace: A |= B, A &= B (dst is then bound to the same object as a)"""
     def f(mk, st):
         A, B = st["nets"][a], st["nets"][b]
         preA = [(id(t), tuple(t.inds)) for t in A.tensor_map.values()]
@@ -253,14 +262,22 @@ def s_combine(a, b, dst, op):
             for ax, ix in enumerate(t.inds):
                 if ix in B._inner_inds:
                     bondsB.setdefault(ix, []).append((tid, ax))
-        C = (A | B) if op == "|" else (A & B)
+        if inplace:
+            C = A
+            if op == "|":
+                C |= B
+            else:
+                C &= B
+            mk.same(f"{a}{op}={b} is in place", C is A, True)
+        else:
+            C = (A | B) if op == "|" else (A & B)
         st["nets"][dst] = C
         labs = set(C.ind_map)
         mk.same(f"{dst}: outer labels of {a} not renamed", outerA <= labs, True)
         mk.same(f"{dst}: outer labels of {b} not renamed", outerB <= labs, True)
-        mk.same(f"{dst}: labels of {a} untouched", [(id(t), tuple(t.inds)) for t in A.tensor_map.values()], preA)
-        # no bond of B coincides with a bond of A afterwards
         ntA = len(preA)
+        mk.same(f"{dst}: labels of {a} untouched", [(id(t), tuple(t.inds)) for t in A.tensor_map.values()][:ntA], preA)
+        # no bond of B coincides with a bond of A afterwards
         Cts = list(C.tensor_map.values())
         # every axis of B's tensors that carried an OUTER label of B still carries that very label (it may
         # well coincide with a label - even a bond - of A: it then joins it, it is never renamed)
@@ -278,7 +295,7 @@ def s_combine(a, b, dst, op):
             # and the bond of B is still one bond (all its positions carry the same label)
             for (tid, ax) in pos:
                 mk.same(f"{dst}: bond of {b} stays one bond", Cts[ntA + tB.index(tid)].inds[ax] == newlab, True)
-    return (f"{dst}={a}{op}{b}", f)
+    return (f"{a}{op}={b}" if inplace else f"{dst}={a}{op}{b}", f)
 
 
 def s_contract_ind(net, ix):
@@ -307,6 +324,116 @@ def s_fuse_multibonds(net):
     return (f"{net}.fuse_multibonds_()", f)
 
 
+def s_dup(src, dst, how):
+    """the non-virtual ways of duplicating a network: the result must be fully independent of the source"""
+    def f(mk, st):
+        A = st["nets"][src]
+        if how == "copy(deep=True)":
+            B = A.copy(deep=True)
+        elif how == "copy.deepcopy":
+            B = _copy.deepcopy(A)
+        elif how == "copy.copy":
+            B = _copy.copy(A)
+        elif how == "TensorNetwork(tn)":
+            B = qtn.TensorNetwork(A)
+        else:
+            raise ValueError(how)
+        st["nets"][dst] = B
+        mk.same(f"{dst}={how}: no tensor shared with {src}", {id(t) for t in A.tensor_map.values()} & {id(t) for t in B.tensor_map.values()}, set())
+        # no lookup container shared either (a mutation of one network must not reach the other)
+        shared = [nm for nm in ("ind_map", "tag_map", "tensor_map", "_inner_inds", "_outer_inds") if getattr(A, nm) is getattr(B, nm)]
+        mk.same(f"{dst}={how}: no lookup container shared with {src}", shared, [])
+    return (f"{dst}={how}({src})", f)
+
+
+def s_tensor_dup(net, k, dst, how):
+    """duplicate ONE tensor of a network; the duplicate belongs to nobody and is then mutated inside its own network"""
+    def f(mk, st):
+        tn = st["nets"][net]
+        tids = sorted(tn.tensor_map)
+        if k >= len(tids):
+            raise Skip("no such tensor")
+        t = tn.tensor_map[tids[k]]
+        d = {"copy()": lambda: t.copy(), "copy(deep=True)": lambda: t.copy(deep=True), "copy.copy": lambda: _copy.copy(t),
+             "copy.deepcopy": lambda: _copy.deepcopy(t), "pickle": lambda: pickle.loads(pickle.dumps(t))}[how]()
+        mk.same(f"{how} of a tensor: a new tensor owned by no network", (d is t, len(d.owners)), (False, 0))
+        mk.same(f"{how} of a tensor: same labels and tags", (tuple(d.inds) == tuple(t.inds), set(d.tags)), (True, set(t.tags)))
+        st["nets"][dst] = qtn.TensorNetwork([d], virtual=True)
+        pre = (tuple(t.inds), list(t.tags))
+        d.add_tag(st["G"][-1])
+        d.reindex_({t.inds[0]: st["L"][-1]})
+        d.drop_tags(st["G"][0])
+        mk.same(f"{how} of a tensor: the original does not see changes of the duplicate", (tuple(t.inds), list(t.tags)), pre)
+    return (f"{dst}=[{how}(tensor{k}@{net})]+mutate", f)
+
+
+def s_remove_all(net):
+    def f(mk, st):
+        tn = st["nets"][net]
+        st["loose"].extend(tn.tensor_map.values())
+        tn.remove_all_tensors()
+        mk.same(f"{net}.remove_all_tensors(): empty", (len(tn.tensor_map), len(tn.ind_map), len(tn.tag_map), tuple(tn.inner_inds()), tuple(tn.outer_inds())), (0, 0, 0, (), ()))
+    return (f"{net}.remove_all_tensors()", f)
+
+
+def s_delete(net, gs, which):
+    def f(mk, st):
+        tn = st["nets"][net]
+        tags = [st["G"][g] for g in gs]
+        hit = [all(tg in t.tags for tg in tags) if which == "all" else any(tg in t.tags for tg in tags) for t in tn.tensor_map.values()]
+        keep = [id(t) for t, h in zip(tn.tensor_map.values(), hit) if not h]
+        st["loose"].extend(tn.tensor_map.values())
+        tn.delete(tags, which=which)
+        mk.same(f"{net}.delete: exactly the matching tensors are removed", [id(t) for t in tn.tensor_map.values()], keep)
+    return (f"{net}.delete(G{gs},which={which})", f)
+
+
+def s_make_norm(src, dst, mangle_append, layer_tags=("KET", "BRA"), via="make_norm", oi=False):
+    """N = <A|A> as a network: the ket layer keeps every label, the bra layer keeps every OUTER label on its axis and
+    carries, for every bond of A, one fresh label that coincides with no label of the ket layer nor with another bond
+    (documented values of mangle_append: str, False, None)"""
+    def f(mk, st):
+        A = st["nets"][src]
+        pre = [tuple(t.inds) for t in A.tensor_map.values()]
+        outer, inner = set(A.outer_inds()), set(A.inner_inds())
+        if via == "make_norm" and oi:       # output_inds given explicitly (= the outer labels)
+            N = A.make_norm(mangle_append=mangle_append, layer_tags=layer_tags, output_inds=tuple(A.outer_inds()))
+        elif via == "make_norm":
+            N = A.make_norm(mangle_append=mangle_append, layer_tags=layer_tags)
+        elif via == "return_all":
+            N, ket, bra = A.make_norm(mangle_append=mangle_append, layer_tags=layer_tags, return_all=True)
+            st["nets"][dst + "_ket"], st["nets"][dst + "_bra"] = ket, bra
+        elif via == "conj&":        # the same construction through the public pieces
+            N = A & A.conj(mangle_inner=mangle_append)
+        elif via == "H|":
+            N = A | A.H
+        st["nets"][dst] = N
+        n = len(pre)
+        ts = list(N.tensor_map.values())
+        mk.same(f"{dst}: two layers", len(ts), 2 * n)
+        mk.same(f"{dst}: labels of {src} untouched", [tuple(t.inds) for t in A.tensor_map.values()], pre)
+        ketlabs = set()
+        for k in range(n):
+            ketlabs |= set(ts[k].inds)
+        newlab = {}
+        for k, inds in enumerate(pre):
+            mk.same(f"{dst}: ket layer keeps its labels", tuple(ts[k].inds) == inds, True)
+            for ax, ix in enumerate(inds):
+                nl = ts[n + k].inds[ax]
+                if ix in outer:
+                    mk.same(f"{dst}: outer label of {src} kept on its axis of the bra layer", nl == ix, True)
+                elif ix in inner:
+                    if ix not in newlab:
+                        newlab[ix] = nl
+                    mk.same(f"{dst}: bond of the bra layer stays one bond", nl == newlab[ix], True)
+                    mk.same(f"{dst}: bond of the bra layer does not coincide with a label of the ket layer", nl in ketlabs, False)
+        vals = list(newlab.values())
+        for i in range(len(vals)):
+            for j in range(i):
+                mk.same(f"{dst}: distinct bonds of the bra layer stay distinct", vals[i] == vals[j], False)
+    return (f"{dst}={src}.{via}(mangle_append={mangle_append!r},layer_tags={layer_tags}" + (",output_inds=outer" if oi else "") + ")", f)
+
+
 def run(mk, start, steps, nlabels=6, ntags=3):
     mk.encodes(tc.TensorNetwork.add_tensor, tc.TensorNetwork.add_tensor_network, tc.TensorNetwork._link_inds,
                tc.TensorNetwork._unlink_inds, tc.TensorNetwork._link_tags, tc.TensorNetwork._unlink_tags,
@@ -326,6 +453,11 @@ def run(mk, start, steps, nlabels=6, ntags=3):
         st["nets"]["B"] = qtn.TensorNetwork([T([L[3], L[4]], [G[0]]), T([L[4], L[5]], [G[2]])])
     elif start == "one":
         st["nets"]["A"] = qtn.TensorNetwork([T([L[0], L[1]], [G[0]])])
+    elif start == "pair5":   # two networks with one bond each on 5 labels (the 6-label "pair" costs ~8x the paths)
+        st["nets"]["A"] = qtn.TensorNetwork([T([L[0], L[1]], [G[0]]), T([L[1], L[2]], [G[1]])])
+        st["nets"]["B"] = qtn.TensorNetwork([T([L[3], L[4]], [G[0]]), T([L[4], L[0]], [G[1]])])
+    elif start == "bond":    # A = {t0(L0,L1)[G0], t1(L1,L2)[G1]}: a bond in every aliasing pattern
+        st["nets"]["A"] = qtn.TensorNetwork([T([L[0], L[1]], [G[0]]), T([L[1], L[2]], [G[1]])])
     verify(mk, st["nets"], "start")
     def _reps():
         return {id(t): len(set(t.inds)) != len(t.inds) for tn in st["nets"].values() for t in tn.tensor_map.values()}
@@ -335,7 +467,8 @@ def run(mk, start, steps, nlabels=6, ntags=3):
         try:
             fn(mk, st)
             after = _reps()
-            if any(tok in name for tok in (".modify(inds", ".reindex_(")) and (any(before.values()) or any(after.values())):
+            # (norm networks mangle the bra layer by reindexing its tensors in place: the same mechanism)
+            if any(tok in name for tok in (".modify(inds", ".reindex_(", ".make_norm(", ".return_all(", ".conj&(", ".H|(", "]+mutate")) and (any(before.values()) or any(after.values())):
                 _REP[0] = True          # sticky for the rest of this history
         except Skip as e:
             mk.note(f"step {k} {name}: skipped ({e})")
@@ -394,6 +527,61 @@ for a, b, c in itertools.permutations(range(len(_CORE)), 3):
     if (a * 7 + b * 3 + c) % 11 == 0:
         _PROGS.append(P_("two", _CORE[a], _CORE[b], _CORE[c], nl=4, nt=2, tiers=("thorough",)))
 
+# ---- second vocabulary (appended so that the numbering of the programs above is stable): non-virtual duplicates that
+# must be independent of their source, emptying + re-use of a network, in-place combination, norm networks for every
+# documented value of mangle_append
+_PROGS2 = []
+for how in ("copy(deep=True)", "copy.deepcopy", "copy.copy", "TensorNetwork(tn)"):
+    # mutate the duplicate, then the source, and the other way round (verify() re-scans BOTH networks after every step)
+    _PROGS2.append(P_("bond", s_dup("A", "B", how), s_reindex_net("B", 1, 3), s_pop("A", 1), nl=4, nt=2))
+    _PROGS2.append(P_("two", s_dup("A", "B", how), s_retag_net("A", 0, 1), s_pop("B", 0), nl=4, nt=2))
+_PROGS2 += [
+    P_("two", s_dup("A", "B", "copy(deep=True)"), s_add("B", (1, 3), (1,), False), s_reindex_tensor("A", 1, 3, 1), nl=4, nt=2),
+    P_("bond", s_dup("A", "B", "copy.deepcopy"), s_delete("B", (1,), "all"), s_reindex_net("A", 0, 3), nl=4, nt=2),
+    P_("bond", s_dup("A", "B", "copy.deepcopy"), s_dup("B", "C", "copy(deep=True)"), s_reindex_tensor("C", 0, 1, 3), nl=4, nt=2),
+    P_("bond", s_pickle("A"), s_dup("A", "B", "copy(deep=True)"), s_drop("A"), s_reindex_net("B", 1, 0), nl=3, nt=2),
+    # emptying and re-use
+    P_("bond", s_remove_all("A"), s_add("A", (1, 3), (1,), False), s_add("A", (3, 0), (0,), True), nl=4, nt=2),
+    P_("two", s_remove_all("A"), s_add("A", (1, 3), (1,), True), s_add("A", (2, 0), (0,), False), nl=4, nt=2),
+    P_("bond", s_copy("A", "B", True), s_remove_all("A"), s_add("A", (1, 0), (0,), True), s_reindex_net("B", 1, 3), nl=4, nt=2),
+    P_("bond", s_delete("A", (0, 1), "any"), s_add("A", (1, 3), (1,), False), nl=4, nt=2),
+    P_("two", s_add_tag("A", 1, 0), s_delete("A", (0, 1), "all"), s_add("A", (3, 1), (1,), False), nl=4, nt=2),
+    P_("pair5", s_remove_all("A"), s_add("A", (1, 3), (1,), False), s_combine("A", "B", "A", "&", inplace=True), nl=5, nt=2),
+    P_("pair5", s_remove_all("A"), s_add("A", (1, 2), (0,), True), s_combine("A", "B", "A", "|", inplace=True), nl=5, nt=2),
+    P_("pair5", s_combine("A", "B", "A", "&", inplace=True), s_pop("A", 2), nl=5, nt=2),
+    P_("pair5", s_combine("A", "B", "A", "|", inplace=True), s_reindex_net("B", 4, 1), nl=5, nt=2),
+    P_("pair", s_remove_all("A"), s_add("A", (1, 3), (1,), False), s_combine("A", "B", "A", "&", inplace=True), nl=6, nt=3, tiers=("thorough",)),
+    P_("pair", s_combine("A", "B", "A", "&", inplace=True), nl=6, nt=3, tiers=("thorough",)),
+    P_("pair", s_combine("A", "B", "A", "|", inplace=True), nl=6, nt=3, tiers=("thorough",)),
+]
+for m in ("*", None, False, "", True, "_b"):
+    _PROGS2.append(P_("bond", s_make_norm("A", "N", m), s_reindex_tensor("N", 0, 0, 3), nl=4, nt=2))
+_PROGS2 += [
+    P_("two", s_make_norm("A", "N", False, None), nl=4, nt=2),
+    P_("two", s_make_norm("A", "N", None, None), nl=4, nt=2),
+    P_("two", s_make_norm("A", "N", "", ("KET", "BRA"), "return_all"), s_pop("N_bra", 0), nl=4, nt=2),
+    P_("two", s_make_norm("A", "N", "*", ("KET", "BRA"), "return_all"), s_pop("N_ket", 1), nl=4, nt=2),
+    P_("bond", s_make_norm("A", "N", False, None, "conj&"), nl=3, nt=2),
+    P_("bond", s_make_norm("A", "N", True, None, "conj&"), nl=3, nt=2),
+    P_("bond", s_make_norm("A", "N", None, None, "H|"), nl=3, nt=2),
+]
+for how in ("copy()", "copy(deep=True)", "copy.copy", "copy.deepcopy", "pickle"):
+    _PROGS2.append(P_("two", s_tensor_dup("A", 0, "D", how), s_pop("A", 0), nl=4, nt=2))
+_PROGS2 += [
+    P_("bond", s_make_norm("A", "N", "*", ("KET", "BRA"), "make_norm", True), nl=3, nt=2),
+    P_("bond", s_make_norm("A", "N", False, ("KET", "BRA"), "make_norm", True), nl=3, nt=2),
+    P_("bond", s_make_norm("A", "N", None, None, "make_norm", True), nl=3, nt=2),
+]
+# all ordered pairs (second vocabulary, core vocabulary) in both orders on the two-tensor start state
+_CORE2 = [s_dup("A", "B", "copy(deep=True)"), s_remove_all("A"), s_delete("A", (0,), "any"), s_make_norm("A", "N", False), s_make_norm("A", "N", "*"),
+          s_tensor_dup("A", 0, "D", "copy.deepcopy")]
+for i, x in enumerate(_CORE2):
+    for j, y in enumerate(_CORE):
+        for o, (u, v) in enumerate(((x, y), (y, x))):
+            quick = (2 * i + 3 * j + o) % 7 == 0
+            _PROGS2.append(P_("two", u, v, nl=4, nt=2, tiers=("quick", "thorough") if quick else ("thorough",)))
+_PROGS += _PROGS2
+
 _STEPS = {}
 _PARAMS = []
 for i, p in enumerate(_PROGS):
@@ -405,3 +593,129 @@ for i, p in enumerate(_PROGS):
 @obligation(PROP, params=_PARAMS, max_paths=6000, wall_s=500, timeout_s=600, numeric=True)
 def scenario(mk, n, start, prog, nl, nt):
     run(mk, start, _STEPS[n], nl, nt)
+
+
+# ---------------------------------------------------------------------- the ordered set behind every lookup structure
+# ind_map / tag_map entries, the inner / outer caches and Tensor.tags are quimb.utils.oset objects.  Every value-returning
+# operation must give a set that is INDEPENDENT of its operands (mutating either side never reaches the other), every
+# in-place operation must touch its receiver only, and the content must agree with an ordered-unique list model
+# (order of the first operand) - for every aliasing pattern of 5 symbolic elements.
+
+def _uniq(seq):
+    out = []
+    for x in seq:
+        if not any(x == y for y in out):
+            out.append(x)
+    return out
+
+
+def _isin(x, M):
+    return any(x == y for y in M)
+
+
+_OSET_PURE = {
+    "a.copy()": (lambda a, b, c: a.copy(), lambda A, B, C: list(A)),
+    "copy.copy(a)": (lambda a, b, c: _copy.copy(a), lambda A, B, C: list(A)),
+    "copy.deepcopy(a)": (lambda a, b, c: _copy.deepcopy(a), lambda A, B, C: list(A)),
+    "copy.deepcopy({k:[a]})": (lambda a, b, c: _copy.deepcopy({"k": [a, a]})["k"][1], lambda A, B, C: list(A)),
+    "unpickle(pickle(a))": (lambda a, b, c: pickle.loads(pickle.dumps(a)), lambda A, B, C: list(A)),
+    "oset(a)": (lambda a, b, c: oset(a), lambda A, B, C: list(A)),
+    "oset.from_dict(dict)": (lambda a, b, c: oset.from_dict(dict.fromkeys(a)), lambda A, B, C: list(A)),
+    "tags_to_oset(a)": (lambda a, b, c: tc.tags_to_oset(a), lambda A, B, C: list(A)),
+    "a.union()": (lambda a, b, c: a.union(), lambda A, B, C: list(A)),
+    "a.union(b)": (lambda a, b, c: a.union(b), lambda A, B, C: _uniq(A + B)),
+    "a.union(b,c)": (lambda a, b, c: a.union(b, c), lambda A, B, C: _uniq(A + B + C)),
+    "a.union(list)": (lambda a, b, c: a.union(list(b)), lambda A, B, C: _uniq(A + B)),
+    "a|b": (lambda a, b, c: a | b, lambda A, B, C: _uniq(A + B)),
+    "a.intersection()": (lambda a, b, c: a.intersection(), lambda A, B, C: list(A)),
+    "a.intersection(b)": (lambda a, b, c: a.intersection(b), lambda A, B, C: [x for x in A if _isin(x, B)]),
+    "a.intersection(b,c)": (lambda a, b, c: a.intersection(b, c), lambda A, B, C: [x for x in A if _isin(x, B) and _isin(x, C)]),
+    "a&b": (lambda a, b, c: a & b, lambda A, B, C: [x for x in A if _isin(x, B)]),
+    "a.difference(b)": (lambda a, b, c: a.difference(b), lambda A, B, C: [x for x in A if not _isin(x, B)]),
+    "a.difference(b,c)": (lambda a, b, c: a.difference(b, c), lambda A, B, C: [x for x in A if not _isin(x, B) and not _isin(x, C)]),
+    "a-b": (lambda a, b, c: a - b, lambda A, B, C: [x for x in A if not _isin(x, B)]),
+    "oset_union([a,b,c])": (lambda a, b, c: tc.oset_union([a, b, c]), lambda A, B, C: _uniq(A + B + C)),
+    "oset_intersection([a,b,c])": (lambda a, b, c: tc.oset_intersection([a, b, c]), lambda A, B, C: [x for x in A if _isin(x, B) and _isin(x, C)]),
+    "oset_intersection([a])": (lambda a, b, c: tc.oset_intersection([a]), lambda A, B, C: list(A)),
+}
+
+
+def _oset_inplace(L):
+    x = L[3]
+    def rm(M, x):
+        return [y for y in M if not (y == x)]
+    return {
+        "a.add(x)": (lambda a, b, c: a.add(x), lambda A, B, C: _uniq(A + [x])),
+        "a.discard(x)": (lambda a, b, c: a.discard(x), lambda A, B, C: rm(A, x)),
+        "a.remove(x)": (lambda a, b, c: a.remove(x), lambda A, B, C: rm(A, x) if _isin(x, A) else KeyError),
+        "a.update(b)": (lambda a, b, c: a.update(b), lambda A, B, C: _uniq(A + B)),
+        "a.update(b,c)": (lambda a, b, c: a.update(b, c), lambda A, B, C: _uniq(A + B + C)),
+        "a.update(list)": (lambda a, b, c: a.update(list(b)), lambda A, B, C: _uniq(A + B)),
+        "a|=b": (lambda a, b, c: a.__ior__(b), lambda A, B, C: _uniq(A + B)),
+        "a.intersection_update(b)": (lambda a, b, c: a.intersection_update(b), lambda A, B, C: [y for y in A if _isin(y, B)]),
+        "a.intersection_update(b,c)": (lambda a, b, c: a.intersection_update(b, c), lambda A, B, C: [y for y in A if _isin(y, B) and _isin(y, C)]),
+        "a&=b": (lambda a, b, c: a.__iand__(b), lambda A, B, C: [y for y in A if _isin(y, B)]),
+        "a.difference_update(b)": (lambda a, b, c: a.difference_update(b), lambda A, B, C: [y for y in A if not _isin(y, B)]),
+        "a.difference_update(b,c)": (lambda a, b, c: a.difference_update(b, c), lambda A, B, C: [y for y in A if not _isin(y, B) and not _isin(y, C)]),
+        "a-=b": (lambda a, b, c: a.__isub__(b), lambda A, B, C: [y for y in A if not _isin(y, B)]),
+        "a.popleft()": (lambda a, b, c: a.popleft(), lambda A, B, C: A[1:]),
+        "a.popright()": (lambda a, b, c: a.popright(), lambda A, B, C: A[:-1]),
+        "a.pop()": (lambda a, b, c: a.pop(), lambda A, B, C: A[:-1]),
+        "a.clear()": (lambda a, b, c: a.clear(), lambda A, B, C: []),
+    }
+
+
+@obligation(PROP, params=[{"group": "value-returning"}, {"group": "in-place"}], max_paths=4000, wall_s=300, timeout_s=400, numeric=True)
+def oset_ops(mk, group):
+    mk.encodes(oset, tc.oset_union, tc.oset_intersection, tc.tags_to_oset)
+    L = [mk.label(f"L{i}") for i in range(5)]
+    src = (L[0], L[1], L[2]), (L[3], L[4]), (L[4], L[2])
+
+    def fresh():
+        a, b, c = (oset(s) for s in src)
+        return (a, b, c), [_uniq(list(s)) for s in src]
+
+    (a, b, c), (A, B, C) = fresh()
+    mk.same("oset(iterable) keeps first occurrences in order", [list(a), list(b), list(c)], [A, B, C])
+    mk.same("len / contains", [len(a), all(x in a for x in A), L[3] in a], [len(A), True, _isin(L[3], A)])
+    mk.same("== compares content", [a == oset(A), b == oset(B), a == b], [True, True, len(A) == len(B) and all(_isin(x, B) for x in A)])
+    if group == "value-returning":
+        for name, (op, model) in _OSET_PURE.items():
+            (a, b, c), (A, B, C) = fresh()
+            r = op(a, b, c)
+            M = model(A, B, C)
+            mk.same(f"{name}: content", list(r), M)
+            mk.same(f"{name}: is an oset", type(r) is oset, True)
+            mk.same(f"{name}: operands unchanged", [list(a), list(b), list(c)], [A, B, C])
+            mk.same(f"{name}: a new object", any(r is o for o in (a, b, c)), False)
+            # mutate the result: the operands must not see it
+            r.add("zz")
+            if M:
+                r.discard(M[0])
+            mk.same(f"{name}: operands unchanged by mutating the result", [list(a), list(b), list(c)], [A, B, C])
+            M2 = M[1:] + ["zz"]
+            # mutate the operands: the result must not see it
+            a.add("yy"); a.popleft(); b.clear(); c.discard(L[4])
+            mk.same(f"{name}: result unchanged by mutating the operands", list(r), M2)
+            r.clear()
+            mk.same(f"{name}: operands unchanged by clearing the result", [list(a), list(b), list(c)],
+                    [A[1:] + ["yy"], [], [y for y in C if not (y == L[4])]])
+    else:
+        for name, (op, model) in _oset_inplace(L).items():
+            (a, b, c), (A, B, C) = fresh()
+            held = a.copy()          # a duplicate taken before the in-place operation
+            M = model(A, B, C)
+            if M is KeyError:
+                mk.raises(f"{name}: absent element is rejected", lambda: op(a, b, c), (KeyError,))
+                M = A
+            else:
+                ret = op(a, b, c)
+                if name in ("a|=b", "a&=b", "a-=b"):
+                    mk.same(f"{name}: returns the receiver", ret is a, True)
+                if name == "a.popleft()":
+                    mk.same(f"{name}: returns the first element", ret == A[0], True)
+                if name in ("a.popright()", "a.pop()"):
+                    mk.same(f"{name}: returns the last element", ret == A[-1], True)
+            mk.same(f"{name}: receiver content", list(a), M)
+            mk.same(f"{name}: other operands unchanged", [list(b), list(c)], [B, C])
+            mk.same(f"{name}: earlier copy of the receiver unchanged", list(held), A)
